@@ -52,28 +52,11 @@ Proof. exact finalized_inputs_frozen. Qed.
 Print Assumptions C11_finalized_inputs_frozen.
 
 (* after any operation history (the caller's TxModifiable values are three bits, the scalars the blinder's generator
-   returns are fresh, and — the part the code does not enforce yet — the commitments handed to the blinder are well
-   formed) the packet serialises and re-parses to itself.
-   full statement: forall ins outs fb p0 ops, init ins outs fb = IOk p0 -> rt (run p0 ops) = true *)
-Theorem C11_reachable_roundtrips_partial : forall ins outs fb p0 ops,
+   returns are fresh) the packet serialises and re-parses to itself *)
+Theorem C11_reachable_roundtrips : forall ins outs fb p0 ops,
   init ins outs fb = IOk p0 -> good_run p0 ops -> rt (run p0 ops) = true.
-Proof. exact reachable_roundtrips_partial. Qed.
-Print Assumptions C11_reachable_roundtrips_partial.
-
-(* refuted for the code as it is: blinder calls that return no error and leave a packet the parser refuses *)
-Theorem C11_reachable_roundtrips_refuted_issuance_commitment_length :
-  exists p0, init [mk_in 0 0 0 0] one_conf_out None = IOk p0 /\
-    let p := run p0 [OWUtxo 0%Z (Some {| u_script := SWpkh 0; u_conf := false |})] in
-    rt p = true /\ snd (step p (OBlind (blind_one [(0, 2)] 0))) = Ok /\ rt (fst (step p (OBlind (blind_one [(0, 2)] 0)))) = false.
-Proof. exact reachable_roundtrips_refuted_issuance_commitment_length. Qed.
-Print Assumptions C11_reachable_roundtrips_refuted_issuance_commitment_length.
-
-Theorem C11_reachable_roundtrips_refuted_nonce_commitment_not_a_point :
-  exists p0, init [mk_in 0 0 0 0] one_conf_out None = IOk p0 /\
-    let p := run p0 [OWUtxo 0%Z (Some {| u_script := SWpkh 0; u_conf := false |})] in
-    rt p = true /\ snd (step p (OBlind (blind_one [] 3))) = Ok /\ rt (fst (step p (OBlind (blind_one [] 3)))) = false.
-Proof. exact reachable_roundtrips_refuted_nonce_commitment_not_a_point. Qed.
-Print Assumptions C11_reachable_roundtrips_refuted_nonce_commitment_not_a_point.
+Proof. exact reachable_roundtrips. Qed.
+Print Assumptions C11_reachable_roundtrips.
 
 (* the side condition on the flags is needed *)
 Theorem C11_reachable_roundtrips_needs_three_bit_flags :
